@@ -140,16 +140,21 @@ def slotAfter (now iv off : Nat) : Int :=
   let n : Int := (now : Int) - (off : Int)
   n + (iv : Int) - n % (iv : Int) + (off : Int)
 
+/-- `if interval is not None: self.taskInterval = interval` and the same for the offset -/
+def TM.setRecurring (tm : TM) (tid : Nat) (iv? off? : Option Nat) : TM :=
+  { tm with
+    ival := match iv? with
+      | some i => upd tm.ival tid (some i)
+      | none => tm.ival
+    ioff := match off? with
+      | some o => upd tm.ioff tid (some o)
+      | none => tm.ioff }
+
 /-- `RecurringTask.install_task(interval, offset)` at manager time `now`.
     The attribute updates precede the checks, so a refused call still changes
     `taskInterval`/`taskIntervalOffset`. -/
 def TM.installRecurring (tm : TM) (now tid : Nat) (iv? off? : Option Nat) : TM × Option Raised :=
-  let tm := match iv? with
-    | some i => { tm with ival := upd tm.ival tid (some i) }
-    | none => tm
-  let tm := match off? with
-    | some o => { tm with ioff := upd tm.ioff tid (some o) }
-    | none => tm
+  let tm := tm.setRecurring tid iv? off?
   match tm.ival tid with
   | none => (tm, some .intervalUnset)
   | some iv =>
@@ -278,36 +283,43 @@ def World.process (w : World) (e : Entry) : World × Bool :=
                     out := w.out ++ [Ev.fire e.tid w.now e.time e.seq] }
   let w := w.deferAll b.defers
   if w.recurring e.tid then
-    let (tm', r) := w.tm.installRecurring w.now e.tid none none
-    ({ w with tm := tm' }, b.raises || r.isSome)
+    let r := w.tm.installRecurring w.now e.tid none none
+    ({ w with tm := r.1 }, b.raises || r.2.isSome)
   else (w, b.raises)
 
-/-- harness-level single step: `task, delta = tm.get_next_task()`, then
-    `tm.process_task(task)` if there is one.  Returns `delta` too. -/
-def World.next (w : World) : World × Option Nat :=
+/-- `task, delta = get_next_task()`, then `process_task(task)` if there is one;
+    an exception leaving `process_task` is logged (by `run`, by `run_once`, by
+    the harness for a bare `next`).  Returns the world, `delta`, and whether an
+    exception was logged. -/
+def World.fireNext (w : World) : World × Option Nat × Bool :=
   match w.tm.getNext w.now with
-  | (none, delta, tm') => ({ w with tm := tm' }, delta)
+  | (none, delta, tm') => ({ w with tm := tm' }, delta, false)
   | (some e, delta, tm') =>
-    let (w', raised) := ({ w with tm := tm' }).process e
-    ((if raised then w'.emit (.taskErr e.tid) else w'), delta)
+    let r := ({ w with tm := tm' }).process e
+    ((if r.2 then r.1.emit (.taskErr e.tid) else r.1), delta, r.2)
+
+/-- harness-level single step (no loop, no drain).  Returns `delta` too. -/
+def World.next (w : World) : World × Option Nat :=
+  let r := w.fireNext
+  (r.1, r.2.1)
 
 /-- the `while delta == 0.0:` loop of `core.run_once` (fixed tree).  The Bool
     is `false` iff the fuel ran out. -/
 def World.runOnceLoop : Nat → World → World × Bool
   | 0, w => (w, false)
   | fuel + 1, w =>
-    let (e?, delta, tm') := w.tm.getNext w.now
-    let w := { w with tm := tm' }
-    let w := match e? with
-      | none => w
-      | some e =>
-        let (w', raised) := w.process e
-        if raised then w'.emit (.taskErr e.tid) else w'
-    let w := w.drain
-    if delta = some 0 then runOnceLoop fuel w else (w, true)
+    let r := w.fireNext
+    let w := r.1.drain
+    if r.2.1 = some 0 then runOnceLoop fuel w else (w, true)
 
-/-- `core.run_once()`; at most one iteration per heap entry, plus one -/
+/-- `core.run_once()`; at most one iteration per heap entry, plus one
+    (`C14.runOnce_completes`) -/
 def World.runOnce (w : World) : World × Bool := w.runOnceLoop (w.tm.heap.length + 1)
+
+/-- `if delta is None: delta = spin` … `delta = min(delta, spin)` of `core.run` -/
+def World.timeout (w : World) : Option Nat → Nat
+  | none => w.spin
+  | some d => min d w.spin
 
 /-- `core.run(spin)` between the harness's idle stub (what stands for
     `asyncore.loop(timeout=delta, count=1)`), until virtual time `T`:
@@ -319,35 +331,27 @@ def World.runOnce (w : World) : World × Bool := w.runOnceLoop (w.tm.heap.length
 
     (`trigger` is a flag object put in place of the manager's wake-up pipe:
     install_task, suspend_task and deferred set it, exactly as they write to
-    the pipe in production.)
-
-    The Bool is `false` iff the fuel ran out before `stop()`. -/
+    the pipe in production.)  The Bool is `false` iff the fuel ran out before
+    `stop()`. -/
 def World.runLoop : Nat → Nat → World → World × Bool
   | 0, _, w => (w, false)
   | fuel + 1, T, w =>
-    let (e?, delta, tm') := w.tm.getNext w.now
-    let w := { w with tm := tm' }
     -- try: if task: process_task(task)
-    let (w, raised) := match e? with
-      | none => (w, false)
-      | some e =>
-        let (w', r) := w.process e
-        ((if r then w'.emit (.taskErr e.tid) else w'), r)
-    if raised then
+    let r := w.fireNext
+    let w := r.1
+    if r.2.2 then
       -- except Exception: logged; the rest of this iteration is skipped
       runLoop fuel T w
     else
       -- if delta is None: delta = spin;  delta = min(delta, spin)
-      let d := match delta with
-        | none => w.spin
-        | some d => min d w.spin
+      let d := w.timeout r.2.1
       -- (if deferredFns: delta = min(delta, 0.001) — the stub ignores it)
       -- asyncore.loop(timeout=delta, count=1)  → idle(delta)
       if w.tm.trig then
         runLoop fuel T ({ w with tm := { w.tm with trig := false } }).drain
       else if w.now + d > T then
-        -- stop(): `running = False`; the iteration still finishes with the drain
-        -- (stop() also sets the trigger)
+        -- stop(): `running = False` (and the trigger is set); the iteration
+        -- still finishes with the drain
         (({ w with now := max w.now T, tm := { w.tm with trig := true } }).drain, true)
       else
         runLoop fuel T ({ w with now := w.now + d }).drain
